@@ -36,6 +36,9 @@ RULE_KINDS = {
     'rebind_for': (['q(x) <-- e(x, y), for y in 0..3;'], ['q(x) <-- e(x, y), for _w in 0..3;'], 'shadows another variable'),
     'rebind_agg': (['q(x) <-- e(x, y), agg y = count() in z(_);'], ['q(x) <-- e(x, y), agg _w = count() in z(_);'], 'shadows another variable'),
     'rebind_iflet': (['q(x) <-- e(x, y), z(w), if let Some(y) = Some(w);'], ['q(x) <-- e(x, y), z(w), if let Some(_v) = Some(w);'], 'shadows another variable'),
+    'rebind_iflet_at': (['q(x) <-- e(x, y), z(w), if let _whole @ Some(y) = Some(w);'], ['q(x) <-- e(x, y), z(w), if let _whole @ Some(_v) = Some(w);'], 'shadows another variable'),
+    'rebind_let_at': (['q(x) <-- e(x, y), let _whole @ (y, _) = (3, 4);'], ['q(x) <-- e(x, y), let _whole @ (_v, _) = (3, 4);'], 'shadows another variable'),
+    'rebind_for_at': (['q(x) <-- e(x, y), for _whole @ (y, _) in [(1, 2)];'], ['q(x) <-- e(x, y), for _whole @ (_v, _) in [(1, 2)];'], 'shadows another variable'),
     'rebind_for_first': (['q(x) <-- for x in 0..3, let x = 4;'], ['q(x) <-- for x in 0..3, let _w = 4;'], 'shadows another variable'),
     'attr_on_rule': (['#[inline] q(x) <-- e(x, _);'], ['q(x) <-- e(x, _);'], 'unexpected attribute'),
     'head_unbound_var': (['q(y) <-- e(x, _);'], ['q(x) <-- e(x, _);'], 'cannot find value `y` in this scope'),
